@@ -8,6 +8,7 @@
 mod codec;
 mod inv;
 mod cfg;
+mod py;
 mod ops;
 
 use rayon::prelude::*;
